@@ -29,7 +29,9 @@ def histories(u, rnd, n, length):
         ops = []
         for _ in range(length):
             r = rnd.random()
-            if r < 0.55:
+            if r < 0.05:
+                ops.append({"k": "salt", "a": rnd.randint(1, ne)})     # resubmission with another signature
+            elif r < 0.55:
                 ops.append({"k": "store", "a": rnd.randint(1, ne)})
             elif r < 0.75:
                 ops.append({"k": "remove", "a": rnd.randint(1, ne)})
